@@ -77,7 +77,13 @@ func (n *NetConnectionServerCommunicator) handleRequest(w dns.ResponseWriter, r 
 
 	if err = w.WriteMsg(resp); err != nil {
 		err = errors.WithStack(err)
-		log.WithError(err).Errorf("Failed writing response: %v", resp)
+		// Do not format the message itself: a response that is too big to pack has thousands of
+		// records, and rendering those costs far more than the query that caused them.
+		answers := 0
+		if resp != nil {
+			answers = len(resp.Answer)
+		}
+		log.WithError(err).Errorf("Failed writing response (%d answer records) to %v", answers, w.RemoteAddr())
 	}
 }
 
